@@ -67,6 +67,42 @@ func valueString(v any) string {
 	return fmt.Sprint(v)
 }
 
+// tokenString renders the current token: its kind and, for value-carrying kinds, its value
+// (punctuation tokens leave a stale value behind).
+func tokenString(l *lexer.Lexer) string {
+	t := l.Token()
+	if t < 256 {
+		return fmt.Sprintf("%q", t)
+	}
+	return fmt.Sprintf("%d:%s", t, valueString(l.Value()))
+}
+
+// eofDivergence compares the tokens of p at end of input (a) with the tokens of
+// p + "\n" + sentinel (b). a must be a prefix of b — its last token may be extended in b
+// by an unterminated literal swallowing the following line — and b must continue with the
+// separating newline token or the sentinel.
+func eofDivergence(a, b []string) string {
+	for i := range a {
+		if i >= len(b) {
+			return fmt.Sprintf("token %d %s exists only at end of input", i, a[i])
+		}
+		if a[i] == b[i] {
+			continue
+		}
+		if i == len(a)-1 && strings.HasPrefix(b[i], a[i]) {
+			return "" // unterminated literal: the rest of the text belongs to it
+		}
+		return fmt.Sprintf("token %d is %s at end of input but %s when a line follows", i, a[i], b[i])
+	}
+	if len(b) > len(a) {
+		next := b[len(a)]
+		if next != fmt.Sprintf("%q", '\n') && !strings.Contains(next, sentinel) {
+			return fmt.Sprintf("token %s is produced only when a line follows: lost at end of input", next)
+		}
+	}
+	return ""
+}
+
 func checkPrefix(rep *report, p []byte) {
 	runes := utf8.RuneCount(p)
 	add := func(kind, detail string) {
@@ -81,10 +117,12 @@ func checkPrefix(rep *report, p []byte) {
 	// pass 1: termination, linear token count
 	calls := 0
 	over := false
+	var atEOF []string // token stream of p when the input really ends here
 	ok, at := simrt.Guard(budget, func() {
 		l := newLexer(p)
 		for l.Advance() {
 			calls++
+			atEOF = append(atEOF, tokenString(&l))
 			if calls > bound {
 				over = true
 				return
@@ -106,12 +144,14 @@ func checkPrefix(rep *report, p []byte) {
 
 	// pass 2: whole input consumed (black-box, by sentinel)
 	found := false
+	var withMore []string // token stream of the same text when more text follows
 	ok, at = simrt.Guard(2*budget, func() {
 		ext := append(append(append([]byte(nil), p...), '\n'), []byte(sentinel+"\n")...)
 		l := newLexer(ext)
 		n := 0
 		for l.Advance() {
 			n++
+			withMore = append(withMore, tokenString(&l))
 			if strings.Contains(valueString(l.Value()), sentinel) {
 				found = true
 				return
@@ -125,6 +165,10 @@ func checkPrefix(rep *report, p []byte) {
 		add("hang", "lexing with trailing text does not terminate: "+at)
 	} else if !found {
 		add("unconsumed", "end-of-stream was reported before the text that follows was reached")
+	} else if d := eofDivergence(atEOF, withMore); d != "" {
+		// the end of the input must not make runes disappear: what the lexer produces for p
+		// at end of input must be what it produces for p when a new line follows
+		add("eof-divergence", d)
 	}
 
 	// pass 3: the parser's token construction
